@@ -11,7 +11,7 @@ import dataclasses
 
 from core import hx, unsx
 
-from redun.expression import SchedulerExpression, SimpleExpression, TaskExpression, ValueExpression
+from redun.expression import Expression, SchedulerExpression, SimpleExpression, TaskExpression, ValueExpression
 from redun.functools import (apply_func, as_task, compose, const, delay, flat_map, flatten, force, identity, map_, seq,
                              zip_)
 from redun.scheduler import Thread, apply_tags, catch, catch_all, cond, fork_thread, subrun
@@ -309,6 +309,7 @@ class Gen:
         self.max_fan = max_fan
         self.tagc = 0
         self.feat = {}
+        self.pool = []          # int-valued sub-expressions generated so far in this program (for sharing)
 
     def f(self, name):
         self.feat[name] = self.feat.get(name, 0) + 1
@@ -352,6 +353,42 @@ class Gen:
         return self.t("dflt_fail")(self.lit())
 
     def int(self, d):
+        """an int-valued expression; now and then the SAME sub-expression as an earlier one (the scheduler shares one promise
+        per parent job and expression hash)"""
+        r = self.rng
+        if self.pool and r.random() < 0.1:
+            self.f("shared-subexpression")
+            return r.choice(self.pool)
+        e = self._int(d)
+        if isinstance(e, Expression) and len(self.pool) < 12:
+            self.pool.append(e)
+        return e
+
+    def shared(self, d):
+        """one term used twice under the same parent: as an argument of a call next to another (possibly slower) argument,
+        and in a later step of seq / cond / map_ whose earlier step waited on that same term"""
+        r = self.rng
+        self.f("shared-term-pattern")
+        s = self.t(r.choice(["inc", "twice", "neg", "s_inc"]))(self._int(max(d - 1, 0)))
+        other = self.int(d)
+        user = r.choice([lambda: self.t("add")(s, other), lambda: self.t("add")(other, b=s), lambda: self.t("pair")(s, other),
+                         lambda: [s, other], lambda: s + other])()
+        k = r.randrange(5)
+        if k == 0:
+            later = seq([s, s] + ([self.int(d - 1)] if r.random() < 0.3 else []))
+        elif k == 1:
+            later = cond(s, s, 0)
+        elif k == 2:
+            later = cond(s == 0, 1, s)
+        elif k == 3:
+            lst = self.t("mklist")(r.randrange(1, 3))
+            return [self.t("pair")(lst, other), map_(L.pair.partial(lst), lst)] if r.random() < 0.5 else \
+                [map_(L.pair.partial(lst), lst), self.t("pair")(lst, other)]
+        else:
+            later = self.t("const")(s, seq([s, self.t("inc")(s)]))
+        return [user, later] if r.random() < 0.6 else [later, user]
+
+    def _int(self, d):
         r = self.rng
         if r.random() < self.p_err:
             return self.err(d)
@@ -712,6 +749,8 @@ class Gen:
     def program(self, depth):
         if self.rng.random() < 0.06:
             return self.catch_all_multi(depth)
+        if self.rng.random() < 0.08:
+            return self.shared(depth)
         k = self.rng.randrange(10)
         if k <= 3:
             return self.int(depth)
